@@ -14,6 +14,14 @@ algorithm x signature algorithm labels) and the form of the signature bytes (`fo
 the header family HdrSTHs is refused like any bad signature (ExactHeaderOnly, OtherHeaderRefused, OtherHeaderLikeBadSig,
 named clause NoHashNoSignature); MCWitness HdrNext (WitnessHdr*.cfg) covers what is held x every member of the family for
 an ECDSA log (L1) and an RSA log (L2).
+Set-up (spec/witness/WitnessSetup.tla, MCWitnessSetup): the known logs and the witness key are the result of an action.
+Set-up path (witness.New over a caller's map / the production path: the witness binary, main -> impl.Main ->
+buildLogMap, started on a YAML configuration) x log configuration (every sequence of keys up to a length: any order,
+any key any number of times) x kind of witness key (ECDSA P-256 / P-384, RSA-2048, Ed25519, X25519) x restarts on
+another configuration; law: log id i is bound to its own key under every configuration shape (OwnKeyOnly,
+ForeignRefused, OwnAccepted), every cosignature verifies under the witness key with the key's algorithm
+(CosigUnderKey), named clauses MuteWitnessStoresNothing and DroppedLogNotServed.  Binding: TestSetup replays scripted
+cover and random walks into witness.New and into the built binary over loopback HTTP.
 """
 import json
 import os
@@ -43,6 +51,11 @@ ASSUME = [
     "found by a search of about 2^16 point additions, once per process).  NOT asserted: bytes made with the log's own key "
     "over another real hash (md5 .. sha512) under the header naming that hash (the code accepts them; no log issues them)",
     "log L1 has an ECDSA P-256 key, log L2 an RSA-2048 key (both allowed by RFC 6962 2.1.4)",
+    "set-up: log configurations are sequences of up to 4 (thorough: 5) entries over three log keys (ECDSA, RSA, ECDSA); "
+    "what a duplicate entry or a witness key without a signature algorithm does to the START of the witness is not "
+    "asserted (a witness that does not come up is accepted); the witness binary is built from the repository under "
+    "test with the default build tags and reached over loopback TCP; a restart is a kill of the process (or a closed "
+    "database handle) followed by a start on the same database file with the same witness key",
     "log-id spellings: configured string, unused trailing bits set, CR/LF inserted, padding dropped, URL-safe "
     "alphabet, leading/trailing blank; named clause AliasIsUnknown (only the configured string names a known log)",
 ]
@@ -56,7 +69,13 @@ def run(ctx, replay=None):
             rp = json.load(f)
         beh = rp["replay"]["behaviour"]
         path = ctx.write_ndjson("replay.ndjson", [beh])
+        if beh and beh[0].get("op") == "Start":      # a behaviour of WitnessSetup.tla
+            ctx.go_test("c19", run="TestSetup$", env={"VERIF_SETUP_BEHAVIOURS": path}, name="c19setup")
+            return
         ctx.go_test("c19", run="TestReplay$", env=dict(env, VERIF_BEHAVIOURS=path))
+        return
+    if os.environ.get("VERIF_C19_ONLY") == "setup":      # development aid: the set-up steps alone
+        setup(ctx)
         return
     # 1. exhaustive model check of the sequential specification
     ctx.tlc("witness", "MCWitness", ctx.pick("WitnessSmall.cfg", "Witness.cfg"), timeout=3400)
@@ -107,6 +126,41 @@ def run(ctx, replay=None):
     if not os.path.exists(tr) or os.path.getsize(tr) == 0:
         raise Infra("no trace recorded")
     validate_traces(ctx, tr)
+    # 4. the set-up dimension: how the witness comes to know its logs and its key
+    setup(ctx)
+
+
+def setup(ctx):
+    # 4a. exhaustive: every configuration x witness key kind x every request in every order, restarts on every configuration
+    ctx.tlc("witness", "MCWitnessSetup", ctx.pick("WitnessSetupSmall.cfg", "WitnessSetup.cfg"), timeout=3400)
+    # 4b. scripted cover: one behaviour per set-up (every configuration through the production path; every kind of witness
+    # key through both paths); the same list of requests whatever the configuration, two restarts on other shapes of it
+    r = ctx.tlc("witness", "MCWitnessSetup", ctx.pick("WitnessSetupScriptSmall.cfg", "WitnessSetupScript.cfg"), workers=1,
+                count=False, timeout=3000)
+    script = r.records.get("BEH", [])
+    shapes = set()
+    for b in script:
+        c = b[0]["cfg"]
+        dup = [i for i in range(len(c)) if c[i] in c[:i]]
+        if b[0]["path"] == "main" and dup:
+            # where the repeated entry sits, and whether another key follows it
+            shapes.add(("first" if dup[0] == 1 and c[0] == c[1] else "later", any(k not in c[:dup[0] + 1] for k in c[dup[0] + 1:])))
+    if not {("first", True), ("later", True), ("first", False), ("later", False)} <= shapes:
+        raise Infra("scripted cover lacks configuration shapes: have %s" % sorted(shapes))
+    kinds = set((b[0]["wk"], b[0]["path"]) for b in script)
+    want = {(k, p) for k in ("p256", "p384", "rsa2048", "ed25519") for p in ("new", "main")}
+    if not want <= kinds:
+        raise Infra("scripted cover lacks witness key kinds: %s" % sorted(want - kinds))
+    # 4c. random orders, restarts on any configuration
+    r = ctx.tlc("witness", "MCWitnessSetup", "WitnessSetupSim.cfg", simulate=ctx.pick(30, 600), depth=20, count=False)
+    sim = r.records.get("BEH", [])
+    if not sim:
+        raise Infra("set-up simulation exported no behaviours")
+    ctx.log("set-up behaviours: %d scripted + %d simulated (%d through the witness binary, %d restarts)" % (
+        len(script), len(sim), sum(1 for b in script + sim if b[0]["path"] == "main"),
+        sum(1 for b in script + sim for s in b if s["op"] == "Restart")))
+    path = ctx.write_ndjson("setup.ndjson", script + sim)
+    ctx.go_test("c19", run="TestSetup$", env={"VERIF_SETUP_BEHAVIOURS": path}, timeout=3000, name="c19setup")
 
 
 def is_hdr(c):
